@@ -176,12 +176,12 @@ class Gen:
                  "strbytes", "strbytes", "env", "usetop", "usetop", "usetop", "pack"]
         kinds += ["build", "noop"]
         if depth > 0:
-            kinds += ["if", "lambda", "loop", "iter", "dip", "ifnone", "dipstack", "lambdarec"]
+            kinds += ["if", "lambda", "loop", "iter", "dip", "ifnone", "dipstack", "lambdarec", "oddlambda", "mapconv"]
         if self.profile == "tickets":
             kinds = ["ticket"] * 12 + ["stack", "stack", "push", "option_or", "usetop"] + (["ifnone", "dip"] if depth > 0 else [])
         elif self.profile == "collections":
             kinds = ["setmap"] * 7 + ["list"] * 3 + ["comb"] * 2 + ["usetop", "usetop", "stack", "arith", "option_or"] + \
-                (["ifnone", "dip", "iter"] if depth > 0 else [])
+                (["ifnone", "dip", "iter", "mapconv", "mapconv"] if depth > 0 else [])
         elif self.profile == "combs":
             kinds = ["combpush"] * 7 + ["fieldflow"] * 8 + ["comb"] * 3 + ["pack"] * 2 + ["usetop"] * 3 + \
                 ["stack", "push", "option_or", "setmap", "list"] + (["ifnone", "dip", "iter", "if", "lambda", "lambda"] if depth > 0 else [])
@@ -436,10 +436,16 @@ class Gen:
         vt = self.d(small_type(0))
         code = [P("EMPTY_MAP", kt, vt)]
         for k in ks:
-            ov = self.d(st.one_of(st.none(), gt.values(vt).map(lambda x: ("Some", x))))
+            ov = self.d(st.one_of(st.none(), gt.values_z(vt).map(lambda x: ("Some", x))))
             code += [push(T("option", vt), ov), push(kt, k), P(self.pick(["UPDATE", "UPDATE", "GET_AND_UPDATE"]))]
             if code[-1]["prim"] == "GET_AND_UPDATE":
                 code.append(P("DROP"))
+        if ks and self.d(st.integers(0, 2)) == 0:  # read one binding back, keeping what GET_AND_UPDATE / GET returns
+            ov = self.d(st.one_of(st.none(), gt.values_z(vt).map(lambda x: ("Some", x))))
+            if self.d(st.booleans()) or not rv.is_duplicable(vt):
+                code += [push(T("option", vt), ov), push(kt, self.pick(ks)), P("GET_AND_UPDATE")]
+            else:
+                code += [P("DUP"), push(kt, self.pick(ks)), P("GET")]
         return code
 
     def c_noop(self, ts, depth):
@@ -516,6 +522,32 @@ class Gen:
             code = [push(T("list", T(tt)), vs), P("CONCAT")]
         return code
 
+    def c_mapconv(self, ts, depth):
+        """MAP whose body changes the element type but not the number / content it carries (nat -> int, timestamp -> int, ...)"""
+        nat, int_, ts_ = T("nat"), T("int"), T("timestamp")
+        convs = [
+            (nat, int_, [P("INT")], gt.ints(False, 64)),
+            (nat, int_, [push(int_, 0), P("ADD")], gt.ints(False, 64)),
+            (int_, nat, [P("ABS")], gt.ints(False, 64)),
+            (int_, nat, [P("ABS")], gt.ints(True, 64)),
+            (ts_, int_, [push(ts_, 0), P("SWAP"), P("SUB")], st.integers(0, 2 ** 33)),
+            (int_, ts_, [push(ts_, 0), P("ADD")], st.integers(0, 2 ** 33)),
+            (T("pair", nat, nat), T("pair", int_, nat), [P("UNPAIR"), P("INT"), P("PAIR")], st.tuples(gt.ints(False, 64), gt.ints(False, 64))),
+            (T("option", nat), T("option", int_), [P("IF_NONE", [P("NONE", int_)], [P("INT"), P("SOME")])],
+             st.one_of(st.none(), gt.ints(False, 64).map(lambda n: ("Some", n)))),
+        ]
+        src, dst, body, vals = self.pick(convs)
+        shape = self.pick(["list", "list", "map", "option"])
+        if shape == "list":
+            return [push(T("list", src), self.d(st.lists(vals, min_size=0 if self.d(st.integers(0, 5)) == 0 else 1, max_size=3))), P("MAP", body)]
+        if shape == "option":
+            return [push(T("option", src), self.d(st.one_of(st.none(), vals.map(lambda v: ("Some", v)), vals.map(lambda v: ("Some", v))))),
+                    P("MAP", body)]
+        kt = self.pick([nat, T("string"), T("pair", nat, nat)])
+        ks = rv.sort_values(kt, gt._consistent(kt, self.d(st.lists(gt.values(kt), min_size=1, max_size=3))))
+        ks = [k for i, k in enumerate(ks) if i == 0 or rv.compare(kt, ks[i - 1], k) != 0]
+        return [push(T("map", kt, src), [(k, self.d(vals)) for k in ks]), P("MAP", [P("CDR")] + body)]
+
     def c_iter(self, ts, depth):
         return self.c_list(ts, depth)
 
@@ -546,10 +578,12 @@ class Gen:
             vt = T("pair", self.d(small_type(0)), self.d(small_type(0)))
         ct = T("map", kt, vt)
         sub = ks[:self.d(st.integers(1 if coll else 0, len(ks)))]
-        code = [push(ct, [(k, self.d(gt.values(vt))) for k in sub])]
+        code = [push(ct, [(k, self.d(gt.values_z(vt))) for k in sub])]
         k = self.pick(["MEM", "GET", "UPDATE", "GET_AND_UPDATE", "SIZE", "ITER", "MAP", "keep"] +
                       (["MAP", "MAP", "UPDATE", "GET_AND_UPDATE", "GET_AND_UPDATE"] if coll else []))
-        ov = self.d(st.one_of(st.none(), gt.values(vt).map(lambda x: ("Some", x))))
+        ov = self.d(st.one_of(st.none(), gt.values_z(vt).map(lambda x: ("Some", x))))
+        if k in ("GET", "UPDATE", "GET_AND_UPDATE") and sub and self.d(st.integers(0, 2)):  # mostly a key that is bound
+            probe = self.pick(sub)
         if k in ("MEM", "GET"):
             code += [push(kt, probe), P(k)]
         elif k in ("UPDATE", "GET_AND_UPDATE"):
@@ -652,7 +686,7 @@ class Gen:
                 body.append(P("DIP", [P("DROP", I(len(out) - 1))]))
             rt = out[0]
         code = [P("LAMBDA", at, rt, body)]
-        k = self.pick(["EXEC", "EXEC", "keep", "APPLY", "APPLY"])
+        k = self.pick(["EXEC", "EXEC", "keep", "APPLY", "APPLY", "APPLY"])
         if k == "EXEC":
             code += [push(at, self.d(gt.values(at))), P("EXEC")]
         elif k == "APPLY":
@@ -667,9 +701,35 @@ class Gen:
                 if len(o2) > 1:
                     b2.append(P("DIP", [P("DROP", I(len(o2) - 1))]))
                 r2 = o2[0]
-            code = [P("LAMBDA", T("pair", a1, a2), r2, b2), push(a1, self.d(gt.values(a1))), P("APPLY")]
+            code = [P("LAMBDA", T("pair", a1, a2), r2, b2)]
+            keep_orig = self.d(st.booleans())   # the lambda that is applied stays alive next to the result
+            if keep_orig:
+                code.append(P("DUP"))
+            code += [push(a1, self.d(gt.values(a1))), P("APPLY")]
             if self.d(st.integers(0, 2)):
                 code += [push(a2, self.d(gt.values(a2))), P("EXEC")]  # otherwise the partially applied lambda stays on the stack
+            if keep_orig and self.d(st.booleans()):  # ... and is used afterwards
+                code += [P("SWAP"), push(T("pair", a1, a2), self.d(gt.values(T("pair", a1, a2)))), P("EXEC")]
+        return code
+
+    def c_oddlambda(self, ts, depth):
+        """A lambda whose signature mentions tickets / operations / big maps / contracts is still plain code: it can be duplicated,
+        stored in collections and read back, paired, wrapped."""
+        lt, bodies = self.pick(gt.ODD_LAMBDAS)
+        at, rt = rv.targs(lt)
+        code = [P("LAMBDA", at, rt, self.pick(bodies))]
+        k = self.pick(["DUP", "DUP", "DUPn", "pairdup", "somedup", "map-get", "map-get", "keep"])
+        if k == "DUP":
+            code += [P("DUP")]
+        elif k == "DUPn":
+            code += [push(T("nat"), 1), P("DUP", I(2))]
+        elif k == "pairdup":
+            code += [push(T("nat"), 7), P("PAIR"), P("DUP"), P("CDR")]
+        elif k == "somedup":
+            code += [P("SOME"), P("DUP")]
+        elif k == "map-get":
+            code += [P("EMPTY_MAP", T("nat"), lt), P("SWAP"), P("SOME"), push(T("nat"), 0), P("UPDATE"),
+                     P("DUP"), push(T("nat"), self.d(st.integers(0, 1))), P("GET")]
         return code
 
     def c_loop(self, ts, depth):
@@ -766,7 +826,7 @@ for _op, _tb in ra.BINARY.items():
 
 
 ALL_KINDS = ["push", "stack", "arith", "compare", "comb", "combpush", "fieldflow", "option_or", "list", "setmap", "strbytes", "env",
-             "usetop", "pack", "ticket", "if", "lambda", "lambdarec", "loop", "iter", "dip", "dipstack", "ifnone", "build", "noop"]
+             "usetop", "pack", "ticket", "if", "lambda", "lambdarec", "loop", "iter", "dip", "dipstack", "ifnone", "build", "noop", "oddlambda", "mapconv"]
 
 
 @st.composite
